@@ -12,6 +12,8 @@ package main
 //	         | ok:<put statuses>:<delete statuses>:<range statuses>
 //	         | err                 WriteBlock failed AFTER the entry was appended to the log
 //	         | not-leader          the last BecomeLeader failed
+//	    E:<0|1>                    (first op only) the shard runs with NewTermOptions{EnableNotifications: 0|1}: every NewTerm
+//	                               of the case (start, restarts, the follower's) carries it                     -> ok
 //	    B:<term>                   Close, NewLeaderController on the same WAL + DB, NewTerm(term), BecomeLeader(rf=1)
 //	        -> ok | blocked        blocked = BecomeLeader failed (applyAllEntriesIntoDB)
 //	    F:<term>                   (last op) Close; a fresh FollowerController receives the whole log of the leader
@@ -129,6 +131,8 @@ type leaderEnv struct {
 	res     []string
 	failed  map[string]bool // classes of the failures seen by WriteBlock so far
 	stuck   bool            // a Close did not return: the case is abandoned
+	noNotif bool            // the shard runs with NewTermOptions{EnableNotifications:false} (op E:0, first op of a case)
+	started bool
 }
 
 var c13EnvCounter int
@@ -168,7 +172,7 @@ func (l *leaderEnv) start(term int64) error {
 		l.lc = nil
 		return err // the stored state cannot even be opened (only possible if a request damaged the internal keys)
 	}
-	if _, err = l.lc.NewTerm(&proto.NewTermRequest{Namespace: c13Ns, Shard: l.shard, Term: term}); err != nil {
+	if _, err = l.lc.NewTerm(&proto.NewTermRequest{Namespace: c13Ns, Shard: l.shard, Term: term, Options: l.termOptions()}); err != nil {
 		return err
 	}
 	ctx, cancel := context.WithTimeout(context.Background(), c13Step)
@@ -177,6 +181,14 @@ func (l *leaderEnv) start(term int64) error {
 		FollowerMaps: map[string]*proto.EntryId{}})
 	l.leading = err == nil
 	return err
+}
+
+// termOptions: nil (= notifications enabled) unless the case runs on a shard with notifications disabled
+func (l *leaderEnv) termOptions() *proto.NewTermOptions {
+	if l.noNotif {
+		return &proto.NewTermOptions{EnableNotifications: false}
+	}
+	return nil
 }
 
 func (l *leaderEnv) head() int64 {
@@ -303,7 +315,7 @@ func (l *leaderEnv) follower(term int64) string {
 	walf := wal.NewWalFactory(&wal.FactoryOptions{BaseWalDir: filepath.Join(fdir, "wal"), Retention: time.Hour, SegmentSize: 1 << 20, SyncData: false})
 	fc, err := server.NewFollowerController(c13SrvConfig, c13Ns, l.shard, walf, kvf)
 	hx.Must(err)
-	_, err = fc.NewTerm(&proto.NewTermRequest{Namespace: c13Ns, Shard: l.shard, Term: term})
+	_, err = fc.NewTerm(&proto.NewTermRequest{Namespace: c13Ns, Shard: l.shard, Term: term, Options: l.termOptions()})
 	hx.Must(err)
 	ctx, cancel := context.WithCancel(context.Background())
 	st := &c13Stream{ctx: ctx, cancel: cancel, in: make(chan *proto.Append, len(entries)+1)}
@@ -356,7 +368,17 @@ func (l *leaderEnv) follower(term int64) string {
 func (l *leaderEnv) do(op string) string {
 	f := strings.Split(op, ":")
 	var res string
+	if !l.started {
+		// the controller is started by the first op: E:<0|1> chooses the term options of the whole case
+		l.started = true
+		if f[0] == "E" {
+			l.noNotif = f[1] == "0"
+		}
+		hx.Must(l.start(1))
+	}
 	switch f[0] {
+	case "E":
+		res = "ok"
 	case "W":
 		res = l.write(parseW(f))
 	case "B":
@@ -378,7 +400,6 @@ func (l *leaderEnv) do(op string) string {
 func c13LeaderCase(o *hx.Out, shard int64, tag string, ntKey string, body func(l *leaderEnv)) {
 	l := newLeaderEnv(o, shard, tag)
 	defer l.close()
-	hx.Must(l.start(1))
 	body(l)
 	o.Case("lseq", fmt.Sprintf("%d %d %s", shard, kv.DeleteRangeThreshold, strings.Join(l.ops, ";")), strings.Join(l.res, ";"), ntKey)
 }
@@ -387,6 +408,9 @@ func c13LeaderMain(o *hx.Out, f hx.Flags) {
 	rng := hx.NewRng(f.Seed ^ 0x13)
 	// every combination of absent / present-zero optional fields through WriteBlock, then a restart and a follower
 	c13LeaderCase(o, 3, "c13leader-optional", "optional", func(l *leaderEnv) {
+		if f.Seed%2 == 0 {
+			l.do("E:0")
+		}
 		for i, w := range c13OptionalSweep() {
 			w.offset, w.ts = 0, uint64(1000+i)
 			if l.do(w.String()) == "err" {
@@ -405,6 +429,10 @@ func c13LeaderMain(o *hx.Out, f hx.Flags) {
 		c13LeaderCase(o, shard, fmt.Sprintf("c13leader#%d", c), fmt.Sprintf("%d", crng.U64()), func(l *leaderEnv) {
 			term := int64(1)
 			ts := uint64(1000)
+			if crng.Chance(30) {
+				l.do("E:0")
+				o.Count("leader:notifications-disabled")
+			}
 			nreq := 10 + crng.Intn(20)
 			for i := 0; i < nreq; i++ {
 				level := 0
